@@ -543,7 +543,7 @@ class Rewriter:
                         out.append(("unmasked_true_type_explicit", "same", added(key, ("o", []))))
                     elif ej is not None:
                         out.append(("omitted_is_empty", "same", added(key, ej)))
-                elif ej is not None or t["kind"] == "struct":
+                elif ej is not None or (t["kind"] == "struct" and not t.get("isTypedef") and not t.get("isUnwrap")):
                     v = ej if ej is not None else ("o", [])
                     if local:
                         t1 = added(key, v)
@@ -559,7 +559,8 @@ class Rewriter:
                 ej = self.empty_json(f["ty"], na)
                 if ej is not None and v == ej:
                     out.append(("masked_empty_dropped_bit_explicit", "same", without(n)))
-                if ej is None and v == ("o", []) and t["kind"] == "struct" and (s["idx"], f["name"]) not in self.skip_fields:
+                if ej is None and v == ("o", []) and t["kind"] == "struct" and not t.get("isTypedef") and not t.get("isUnwrap") \
+                        and (s["idx"], f["name"]) not in self.skip_fields:
                     out.append(("masked_empty_struct_dropped_bit_explicit", "same", without(n)))
                 if local:
                     out += self.drop_implied(s, fields, ms, pos, fvals, f["mask"]["v"])
